@@ -637,8 +637,31 @@ def check_table(ck, prog, name, fields, ref):
             continue
         v = path_return_value(ctx, edges)
         vs0 = strip_casts(v) if v is not None else None
-        if isinstance(vs0, tuple) and vs0[0] == "agg" and vs0[2] == "Ok" and vs0[3] and isinstance(strip_casts(vs0[3][0]), tuple) and strip_casts(vs0[3][0])[0] == "var":
-            inner = path_local_value(ctx, edges, strip_casts(vs0[3][0])[1])
+        if isinstance(vs0, tuple) and vs0[0] == "agg" and vs0[2] == "Ok" and vs0[3] and isinstance(strip_casts(vs0[3][0]), tuple) and strip_casts(vs0[3][0])[0] in ("var", "place"):
+            loc_ = strip_casts(vs0[3][0])[1]
+            inner = path_local_value(ctx, edges, loc_)
+            # `flags |= X` along the path: the accumulated value is the OR of the initial value and every X or-ed in on this path
+            ors = []
+            blocks_ = [0] + [e.dst for e in edges]
+            seen_init = False
+            for b_ in blocks_:
+                blk_ = ctx.cfg.block(b_)
+                if any(s_["k"] == "assign" and s_["dst"]["l"] == loc_ and not s_["dst"].get("p") for s_ in blk_["stmts"]) or \
+                        (blk_["term"]["k"] == "call" and blk_["term"]["dst"]["l"] == loc_ and not blk_["term"]["dst"].get("p")):
+                    seen_init, ors = True, []
+                t_ = blk_["term"]
+                if t_["k"] == "call" and (t_.get("callee") or "").endswith("bitor_assign") and len(t_["args"]) == 2:
+                    a0 = t_["args"][0]
+                    refs = [s_ for s_ in blk_["stmts"] if s_["k"] == "assign" and a0.get("p") and s_["dst"]["l"] == a0["p"].get("l") and s_["rv"]["k"] == "ref" and s_["rv"].get("p", {}).get("l") == loc_]
+                    if refs:
+                        ors.append(ctx.args(b_)[1])
+            if inner is not None and ors:
+                parts = [fold_flags(prog, ctx, x) if fold_flags(prog, ctx, x) is not None else fold_ip(prog, x) for x in [inner] + ors]
+                if all(isinstance(x, int) for x in parts):
+                    acc = 0
+                    for x in parts:
+                        acc |= x
+                    inner = ("const", acc, None, "flags")
             if inner is not None:
                 v = ("agg", vs0[1], "Ok", (inner,), vs0[4])
         rows.append((cons, v))
